@@ -309,6 +309,13 @@ func (b brk) Format(f fmt.State, verb rune) {
 	io.WriteString(f, "\x02")
 }
 
+// strTwin is the fmt-side stand-in of a SafeMessager: a non-string type (so
+// that Sprint spaces operands as it does for the real value) that prints its
+// text under the forwarded directive.
+type strTwin struct{ s string }
+
+func (t strTwin) Format(f fmt.State, verb rune) { fmt.Fprintf(f, fmt.FormatString(f, verb), t.s) }
+
 // placeholder stands for a redactable operand on the fmt side; it prints a
 // token that is substituted by the redactable itself afterwards.
 type placeholder struct{ id int }
